@@ -57,6 +57,11 @@ type Router struct {
 	sendMu        sync.Mutex
 	retainer      *list.List
 	postSendPause time.Duration
+
+	// Messages that could not be handed to the client at once, in order of reception.
+	overflowMu sync.Mutex
+	overflow   []cemi.Message
+	flushing   bool
 }
 
 // sendMultiple sends each message from the slice. Doesn't matter if one fails, all will be tried.
@@ -87,20 +92,53 @@ func (router *Router) resendLost(count uint16) {
 	go router.sendMultiple(messages)
 }
 
-// pushInbound sends the message through the inbound channel. If the sending blocks, it will launch
-// a goroutine which will do the sending.
+// pushInbound sends the message through the inbound channel without blocking the caller. A message
+// that cannot be handed over at once is appended to an overflow queue, which a single goroutine
+// drains in order; later messages queue up behind it, so the order of reception is preserved.
 func (router *Router) pushInbound(msg cemi.Message) {
-	select {
-	case router.inbound <- msg:
+	router.overflowMu.Lock()
+	defer router.overflowMu.Unlock()
 
-	default:
-		go func() {
-			// Since this goroutine decouples from the server goroutine, it might try to send when
-			// the server closed the inbound channel. Sending to a closed channel will panic. But we
-			// don't care, because cool guys don't look at explosions.
-			defer func() { recover() }()
-			router.inbound <- msg
-		}()
+	// Only hand over directly if nothing is waiting in front of this message.
+	if len(router.overflow) == 0 {
+		select {
+		case router.inbound <- msg:
+			return
+
+		default:
+		}
+	}
+
+	router.overflow = append(router.overflow, msg)
+
+	if !router.flushing {
+		router.flushing = true
+		go router.flushInbound()
+	}
+}
+
+// flushInbound hands the queued messages to the client in order and exits once the queue is empty.
+func (router *Router) flushInbound() {
+	// Since this goroutine decouples from the server goroutine, it might try to send when the server
+	// closed the inbound channel. Sending to a closed channel will panic. But we don't care, because
+	// cool guys don't look at explosions.
+	defer func() { recover() }()
+
+	for {
+		router.overflowMu.Lock()
+		if len(router.overflow) == 0 {
+			router.flushing = false
+			router.overflowMu.Unlock()
+			return
+		}
+		msg := router.overflow[0]
+		router.overflowMu.Unlock()
+
+		router.inbound <- msg
+
+		router.overflowMu.Lock()
+		router.overflow = router.overflow[1:]
+		router.overflowMu.Unlock()
 	}
 }
 
